@@ -55,3 +55,17 @@ type DstN struct {
 	ToList IntList
 	Items  ItemList
 }
+
+// SrcG exposes its slices through getters only.
+type SrcG struct {
+	tracks []string
+	scores []int
+}
+
+func (s *SrcG) Tracks() []string { return s.tracks }
+func (s *SrcG) Scores() []int    { return s.scores }
+
+type DstG struct {
+	Tracks []string
+	Scores []int
+}
